@@ -33,6 +33,8 @@ Expected(t, v) ==
     \* a bubble whose function leaves the integers (multiplication by i) around boxes that hold integer arrays
     \* bending all wires round (rigid transpose, either side): the matrix transpose with the wires reversed
     [] v.kind \in {"transpose_l", "transpose_r"} -> TransposeT(EvalD(t.d))
+    \* two bubbles with different functions around the same inside, side by side
+    [] v.kind = "bubble_pair" -> Kron(MapT(EvalD(t.d), OneMinus), MapT(EvalD(t.d), LAMBDA z : GMul(z, <<0, 1>>)))
     [] v.kind = "bubble_i" -> MapT(EvalDRe(t.d), LAMBDA z : GMul(z, <<0, 1>>))
     [] v.kind = "spider" -> SpiderT(v.n, v.m, v.dim)
     [] v.kind = "spider_fusion" -> SpiderT(v.n, v.m, v.dim)
@@ -50,7 +52,7 @@ J09(t) ==
          ELSE IF t.variants[v].kind = "normal_form" THEN "evaluation-not-invariant-under-normalisation"
          ELSE IF t.variants[v].kind \in {"transpose_l", "transpose_r"} THEN "transpose-does-not-evaluate-to-the-transposed-matrix"
          ELSE IF t.variants[v].kind \in {"sum", "sum_then", "sum_tensor", "sum_dagger"} THEN "sum-is-not-the-entrywise-sum"
-         ELSE IF t.variants[v].kind \in {"bubble_sq", "bubble_1m", "bubble_i"} THEN "bubble-is-not-the-entrywise-image"
+         ELSE IF t.variants[v].kind \in {"bubble_sq", "bubble_1m", "bubble_i", "bubble_pair"} THEN "bubble-is-not-the-entrywise-image"
          ELSE IF t.variants[v].kind \in {"spider", "spider_fusion"} THEN "spider-is-not-its-delta-tensor"
          ELSE "tensor-diagram-eval-differs-from-functor", v>>
   ELSE <<"ok", 0>>
